@@ -95,7 +95,9 @@ def gen(S, tier):
                    "error_message": c.pick([None, None, 'Input "{}" is no good'])})
     elif kind == "question":
         sc.update({"default": c.pick([None, "white"]), "valid": ["white", "black"],
-                   "validator": c.chance(0.8)})
+                   "validator": c.chance(0.8),
+                   # what the application's validator raises for an invalid entry
+                   "validator_raises": c.pick(["ValueError", "ValueError", "RuntimeError", "Custom", "LookupError"])})
     else:
         sc.update({"default": c.chance(0.5), "pattern": c.pick(["(?i)^y", "(?i)^y", "^(oui|o)$", "^[jJ]", "(?i)y", "1", "o", "ja?"])})
     for _ in range(w.randint(0, 4)):
@@ -282,9 +284,15 @@ def _make_question(sc, res):
     elif kind == "question":
         q = Question("Colour?", sc["default"])
         if sc["validator"]:
+            class NotAColour(RuntimeError):
+                pass
+
+            exc_type = {"ValueError": ValueError, "RuntimeError": RuntimeError, "Custom": NotAColour,
+                        "LookupError": LookupError}[sc.get("validator_raises", "ValueError")]
+
             def validator(v):
                 if v not in sc["valid"]:
-                    raise ValueError("This is not a colour: %r" % (v,))
+                    raise exc_type("This is not a colour: %r" % (v,))
                 return v
             q.set_validator(validator)
     else:
